@@ -56,4 +56,15 @@ structure World (ω : Type) where
   /-- `SocketError()`: the error code of the last failed call -/
   socketError : M ω Int
 
+/-- the abstract ToDo deque and task interface `Driver::DriverImpl::StepTodos` works on (plus the clock of `World`) -/
+structure TodoWorld (ω : Type) extends World ω where
+  /-- `todos.front()->when` (ns); the deque must not be empty -/
+  frontWhen : M ω Int
+  /-- `todos.pop_front()` after `auto task = std::move(front)`: the task leaves the list and becomes the current one -/
+  popFront : M ω Unit
+  /-- `task->what()`: the user's task body runs (it may re-enter the driver and change the list and the clock) -/
+  runTask : M ω Unit
+  /-- `todos.empty()` -/
+  todosEmpty : M ω Bool
+
 end SockModel.Gen
